@@ -335,7 +335,7 @@ func Violation(property, kind string, c any, msg string) string {
 	b, _ := json.MarshalIndent(env, "", " ")
 	dir := os.Getenv("VERIF_REPLAY_DIR")
 	if dir == "" {
-		dir = filepath.Join(Root(), "replays", property)
+		dir = filepath.Join(Root(), "replays", property, "found")
 	}
 	_ = os.MkdirAll(dir, 0o755)
 	path := filepath.Join(dir, fmt.Sprintf("%s-%016x.json", kind, HashBytes(raw)))
